@@ -467,6 +467,31 @@ def wfVals : Schema → List PVal → Bool
   | (_, k) :: sch, v :: vs => v.ok k && v.small && wfVals sch vs
   | _, _ => false
 
+/-- a value a Go message can hold for a field of this kind (the kinds fit, int64 in range); UTF-8
+    validity of strings is NOT required: Go strings hold any bytes -/
+def PVal.typed : Kind → PVal → Bool
+  | .str, .bytes _ => true
+  | .bytes, .bytes _ => true
+  | .int64, .int i => inInt64 i
+  | .bool, .bool _ => true
+  | .double, .f64 _ => true
+  | .repStr, .list _ => true
+  | .repBytes, .list _ => true
+  | .repDouble, .f64s _ => true
+  | _, _ => false
+
+/-- the value list is one a Go message of this schema can hold -/
+def typedVals : Schema → List PVal → Bool
+  | [], [] => true
+  | (_, k) :: sch, v :: vs => v.typed k && v.small && typedVals sch vs
+  | _, _ => false
+
+/-- a record a Go program can build (and has not obtained from DecodeOp with unknown fields) -/
+def Op.typed (op : Op) : Bool :=
+  match schemaOf op.typ.toNat with
+  | some sch => typedVals sch op.msg.vals && op.msg.unknown == []
+  | none => false
+
 def Op.wf (op : Op) : Bool :=
   match schemaOf op.typ.toNat with
   | some sch => wfVals sch op.msg.vals && op.msg.unknown == []
